@@ -330,6 +330,31 @@ func VerifC02Laws(ea uint, ua, ra string, eb uint, ub, rb string, ec uint, uc, r
 	return 0
 }
 
+// VerifC02Less: the sort adapter is the strict part of Compare - Less(i, j) iff Compare(s[i], s[j]) < 0 - in both
+// directions and on the diagonal; with the laws above that makes it a strict weak order, which is what sort.Sort
+// needs for any slice length.
+func VerifC02Less(ea uint, ua, ra string, eb uint, ub, rb string) int {
+	s := Slice{{ea, ua, ra}, {eb, ub, rb}}
+	ab, ba := Compare(s[0], s[1]), Compare(s[1], s[0])
+	if s.Less(0, 1) != (ab < 0) {
+		return 1
+	}
+	if s.Less(1, 0) != (ba < 0) {
+		return 2
+	}
+	if s.Less(0, 0) || s.Less(1, 1) {
+		return 3
+	}
+	if s.Len() != 2 {
+		return 4
+	}
+	s.Swap(0, 1)
+	if !eqVersion(s[0], Version{eb, ub, rb}) || !eqVersion(s[1], Version{ea, ua, ra}) {
+		return 5
+	}
+	return 0
+}
+
 func verifSortCheck(in Slice) int {
 	s := make(Slice, len(in))
 	copy(s, in)
@@ -378,6 +403,7 @@ var verifFuncs = map[string]interface{}{
 	"VerifLess":       VerifLess,
 	"VerifC01Parsed":  VerifC01Parsed,
 	"VerifC02Laws":    VerifC02Laws,
+	"VerifC02Less":    VerifC02Less,
 	"VerifC02Sort3":   VerifC02Sort3,
 	"VerifC02Sort4":   VerifC02Sort4,
 	"VerifC03Round":   VerifC03Round,
